@@ -22,6 +22,7 @@ type CutCase struct {
 func runCut(c CutCase) (*h.Obs, *h.Backend) {
 	cfg, be := modeConfig(c.Conv.Mode)
 	cfg.MaxMessageBytes = c.Conv.Limit
+	cfg.Timeouts = c.Term == h.TermTimeout // an idle timeout presupposes that the server arms its deadlines
 	in := c.Conv.In[:c.Cut]
 	var segs [][]byte
 	if c.PerOctet {
